@@ -35,6 +35,16 @@ PROPS = {
                 "addresses compared with an independent parser; non-trivial = accepted with >= 1 entry, or rejected after a well-formed first entry",
         "assumptions": COMMON_ASSUME + ["typed reads use align-1 Pod types (the crate's convention)"],
     },
+    "C05": {
+        "lean_module": "SplProofs.C05",
+        "streams": ["C05"],
+        "rule": "stream resolve: structured configs of every kind (fixed key; PDA with 0..16 seeds of every kind incl. boundary indices end == len / len+1, 32- and 33-byte slices, forward references; "
+                "external-program PDAs with in/out-of-range index; key-from-data at the last valid / first invalid offset) and uniformly random 35-byte configs over all 256 kind bytes and arbitrary flag bytes; "
+                "instruction data 0..80 bytes, 0..6 accounts with data None / 0..80 bytes; the Lean driver derives the PDA itself (SHA-256 + Ed25519 on-curve test + bump search), compared on the final key; "
+                "oracle = independent re-parse of the config bytes + Pubkey::try_find_program_address; plus every constructor; non-trivial = reaches a kind-specific branch",
+        "trusted": ["Pubkey::try_find_program_address is a parameter of the theorems; its Lean implementation (Ed25519.pda) is validated against solana-pubkey by the stream, not proved"],
+        "assumptions": COMMON_ASSUME,
+    },
     "C09": {
         "lean_module": "SplProofs.C09",
         "streams": ["C09"],
